@@ -51,7 +51,7 @@ CLAUSES = {
     "aggregate key independent of participant order": "proved (sort_sorted_perm, sort_perm, aggregate_key_perm, "
         "multisig_script_perm, subset_leaf_order_independent)",
     "sum of partial signatures is a valid BIP340 signature (plain and tweaked, all parity combinations)":
-        "partial(F13a) (get_signature_valid_partial, aggregate_key_formula_partial, verify_schnorr_unique): proved for "
+        "partial(F13a) (get_signature_valid_partial, get_signature_bip340_partial, aggregate_key_formula_partial, verify_schnorr_unique): proved for "
         "all participant lists with pairwise different x-only keys, all nonces, messages, merkle roots and timelocks — "
         "the algebra s*G = R_even + e*Q_even in the ZMod N-module <G>, with GroupLaw discharged by "
         "Buidl.Proofs.TaprootGroup from the secp256k1 development of C03; fails for repeated x-only keys (F13a_witness)",
@@ -59,16 +59,19 @@ CLAUSES = {
         "partial(F13a) (get_signature_iff_partial: get_signature succeeds exactly for s_sum congruent to the sum of the "
         "partial signatures modulo N; alter_partial_rejected_partial, omit_partial_rejected_partial)",
     "k-of-n trees: each k-subset owns exactly one leaf":
-        "proved (combinations_mem, combinations_nodup', combinations_count, combinations_bijection, combine_keeps_leaves, "
-        "multi_leaf_tree_leaves, musig_tree_leaves): the leaves are position by position the leaves of the combinations, "
-        "which are the k-subsets, each exactly once; that different subsets give different leaf scripts "
-        "(pairwise different x-only keys) is checked on the implementation (tree_bijection)",
+        "proved (combinations_mem, combinations_no_repeat, combinations_count, combinations_bijection, combine_keeps_leaves, "
+        "multi_leaf_tree_leaves, musig_tree_leaves, multisig_leaf_injective, subset_leaf_order_independent): the leaves "
+        "are position by position the leaves of the combinations, which are the k-subsets, each exactly once, and "
+        "(multi_leaf_tree, pairwise different x-only keys) different subsets have different leaf scripts; for musig_tree "
+        "the distinctness of the aggregate keys of different subsets is a hash property, checked on the implementation "
+        "(tree_bijection)",
     "a spend of each leaf by its subset verifies":
         "correspondence-only (needs the tapscript interpreter of C06/C07): sampled end-to-end through Tx.verify_input",
-    "BIP340 verification": "the verification equation is that of pecc.verify_schnorr (model MuSig.verifySchnorr, the same "
-        "function as Buidl.Model.Schnorr.verifySchnorr over the abstract challenge hash); its equivalence with "
-        "Spec.BIP340.verify is C02's theorem; here the harness checks every aggregate signature with an independent "
-        "BIP340 verifier written from the BIP text",
+    "BIP340 verification": "proved (get_signature_bip340_partial): with the tagged hashes instantiated by SHA-256 the 64 "
+        "bytes returned by get_signature satisfy Spec.BIP340.verify (the BIP's algorithm, Buidl.Spec.BIP340) for the "
+        "x-only external key — through verify_schnorr_unique, the bridge MuSig.verifySchnorr = Schnorr.verifySchnorr "
+        "(Buidl.Proofs.MuSigSpec) and C02's verifyRaw_iff_spec; the harness additionally checks every aggregate signature "
+        "with an independent BIP340 verifier written from the BIP text",
 }
 TRUSTED = ["the tagged hashes are arbitrary functions in every theorem (fields of `Hashes`); the driver instantiates them "
            "with Buidl.Model.Hash.SHA256 and the tag strings re-extracted from buidl/phash.py",
